@@ -198,7 +198,7 @@ pub trait MultiPeerBackend: SocketBackend {
     /// Find a better way of doing this
     async fn peer_connected(self: Arc<Self>, peer_id: &PeerIdentity, io: FramedIo);
 
-    fn peer_disconnected(&self, peer_id: &PeerIdentity);
+    async fn peer_disconnected(&self, peer_id: &PeerIdentity);
 }
 
 pub trait SocketBackend: Send + Sync {
